@@ -62,7 +62,7 @@ Fixpoint okr_gdt_te l g c (t : typeexpr) {struct t} :
   TexprOk t -> OkRes (fun r => TexprOk (fst r)) (get_data_type_te l g c t).
 Proof.
   destruct t as [n | size base inf]; cbn [get_data_type_te TexprOk].
-  - intros H. destruct (text_eqb _ _); [exact H|].
+  - intros H. try (destruct (text_eqb _ _); [exact H|]).
     destruct (lt_lookup l g _) as [[]|];
       try (apply okr_bind with (P := IdOk); [apply okr_ident_flag, H | intros n' Hn'; exact Hn']).
     exact H.
